@@ -210,6 +210,14 @@ fn check_injection(t: &mut Tape, cx: &mut Cx) -> Res {
             _ => unreachable!(),
         };
         let mut b = encode_message(&m);
+        // half of the messages carry a Length field (equal to the true total size, which the injection does not change)
+        if t.chance(50) && b.len() + 2 <= 65535 {
+            if let SMsg::Data { length, .. } = &mut m {
+                *length = Some((b.len() + 2) as u16);
+            }
+            b = encode_message(&m);
+            cx.class("fault: offset size, in a message with a Length field");
+        }
         // Offset Size field: the two octets before the payload
         let pos = b.len() - dlen - 2;
         let x = (dlen + 1 + t.below(2000)).min(65535) as u16;
